@@ -25,6 +25,11 @@ in state 'not placed'.  C01.5 AGREE: every capacity/demand/reservation
 vector is produced by loader.resources, which maps each dimension to one
 parser.  C01.6: Server.restore places through self.put only, with the lease
 neutralised and re-instated on every exit.  C01.7: unit constants (1024).
+C01.8: a server object leaves the model only after its placements were
+withdrawn.  C01.9 (shared with C09.3/C09.4): the stored server-to-instance
+view follows the model - Cell.schedule() takes its before-snapshot before
+and its after-snapshot after every routine that may change a placement, and
+placement changes outside a cycle rewrite or delete the record.
 Does NOT decide the arithmetic identity free = capacity - sum(demand) over
 histories nor value-level behaviour of the unit parsers.
 """
@@ -38,7 +43,7 @@ ASSUMPTIONS = [
 
 MIN_OBLIGATIONS = 20
 MIN_PER_RULE = {'C01.1': 2, 'C01.2': 3, 'C01.3': 1, 'C01.4': 3, 'C01.5': 4,
-                'C01.6': 2, 'C01.7': 4, 'C01.8': 2}
+                'C01.6': 2, 'C01.7': 4, 'C01.8': 2, 'C01.9': 6}
 
 UTILS = 'treadmill.utils'
 
@@ -573,7 +578,7 @@ def _conversion(ctx):
     ctx.require(seen >= 3, 'constructor sites receiving resource vectors')
 
 
-def _restore(ctx, server, put):
+def _restore(ctx, server, put, rule='C01.6'):
     func = K.one([f for f in server.live_methods()
                   if f is not put and any(
                       isinstance(s, ast.Assign) and any(
@@ -597,7 +602,7 @@ def _restore(ctx, server, put):
     for node, _call in puts:
         ok = bool(zero) and K.guarded_by(
             graph, node, lambda e: e.src in zero)
-        ctx.ob('C01.6', func, node, ok,
+        ctx.ob(rule, func, node, ok,
                'lease neutralised before the leaf placement')
         reinst = [n for n in graph.nodes if any(
             N.txt(t) == '%s.lease' % appvar and saved and N.txt(v) == saved
@@ -605,7 +610,7 @@ def _restore(ctx, server, put):
         path = K.find_path(node, [graph.exit],
                            cut_node=lambda n: n in reinst,
                            follow_exc=False)
-        ctx.ob('C01.6', func, node, bool(saved) and path is None,
+        ctx.ob(rule, func, node, bool(saved) and path is None,
                'saved lease re-instated on every exit after the placement',
                path=K.describe(path) if path else None,
                construct='re-instate lease after ' + node.text())
@@ -614,7 +619,7 @@ def _restore(ctx, server, put):
     for node in graph.nodes:
         own.extend(e for e in _effects_put(node, appvar)
                    if not isinstance(e, str))
-    ctx.ob('C01.6', func, None, not own,
+    ctx.ob(rule, func, None, not own,
            'restore has no placement effect of its own (places only through '
            'self.%s)' % put.name, construct='effects of %s' % func.qualname)
 
@@ -717,6 +722,18 @@ def _model_exit(ctx):
     ctx.require(count >= 1, 'del self.servers[...] in Loader')
 
 
+def _reported(ctx):
+    """C01.9 (shared with C09.3 / C09.4): the stored server-to-instance
+    view follows the model - a cycle reports every placement change it
+    makes, and the only placement changes outside a cycle
+    (Loader.restore_placement) rewrite or delete the record."""
+    from . import c09
+    from . import sched_model as SM
+    SM.snapshot_brackets(ctx, 'C01.9')
+    master = ctx.index.get_class(K.MASTER, 'Master')
+    c09.writer_callers(ctx, master, rule='C01.9')
+
+
 def check(ctx):
     _model_exit(ctx)
     nz, server, _node_cls, put, remove, pred = _roles(ctx)
@@ -727,6 +744,7 @@ def check(ctx):
     _conversion(ctx)
     _restore(ctx, server, put)
     _units(ctx)
+    _reported(ctx)
 
 
 _S = 'lib/python/treadmill/scheduler/__init__.py'
